@@ -252,3 +252,27 @@ package tmmemstore
 //@   ensures earlier-replayed-headers-kept: forall i int :: 0 <= i && i < old(len(s.replayedHeaders[h.Height])) ==> s.replayedHeaders[h.Height][i] == old(s.replayedHeaders[h.Height][i])
 //@   ensures other-heights-untouched: forall x uint64 :: x != h.Height ==> (x in s.replayedHeaders) == old(x in s.replayedHeaders) && s.replayedHeaders[x] == old(s.replayedHeaders[x])
 //@   modifies s.replayedHeaders[*]
+
+// A proposed header is refused only when the same proposer already has a header with that hash in that round; otherwise it is
+// appended to the headers stored under (height, round, hash) and every other stored header stays where it was.
+//@ define sameKey(a, b) = typeof(a) == typeof(b) && keybytes(a) == keybytes(b)
+//@ func RoundStore.SaveRoundProposedHeader
+//@   property C16
+//@   option single-critical-section on
+//@   requires s.phs != nil && ph.ProposerPubKey != nil
+//@   requires forall h uint64 :: h in s.phs ==> s.phs[h] != nil
+//@   requires forall h uint64, r uint32 :: (h in s.phs) && (r in s.phs[h]) ==> s.phs[h][r] != nil
+//@   ensures refused-only-for-the-same-proposer-and-hash: result != nil ==> istype(result, tmstore.OverwriteError) &&
+//@       (exists i int :: 0 <= i && i < old(len(s.phs[ph.Header.Height][ph.Round][bytes(ph.Header.Hash)])) &&
+//@           sameKey(ph.ProposerPubKey, old(s.phs[ph.Header.Height][ph.Round][bytes(ph.Header.Hash)][i].ProposerPubKey)))
+//@   ensures accepted-only-from-a-new-proposer: result == nil ==>
+//@       (forall i int :: 0 <= i && i < old(len(s.phs[ph.Header.Height][ph.Round][bytes(ph.Header.Hash)])) ==>
+//@           !sameKey(ph.ProposerPubKey, old(s.phs[ph.Header.Height][ph.Round][bytes(ph.Header.Hash)][i].ProposerPubKey)))
+//@   ensures appended-on-success: result == nil ==> (ph.Header.Height in s.phs) && (ph.Round in s.phs[ph.Header.Height]) &&
+//@       (bytes(ph.Header.Hash) in s.phs[ph.Header.Height][ph.Round]) &&
+//@       len(s.phs[ph.Header.Height][ph.Round][bytes(ph.Header.Hash)]) == old(len(s.phs[ph.Header.Height][ph.Round][bytes(ph.Header.Hash)])) + 1 &&
+//@       s.phs[ph.Header.Height][ph.Round][bytes(ph.Header.Hash)][old(len(s.phs[ph.Header.Height][ph.Round][bytes(ph.Header.Hash)]))] == ph
+//@   ensures earlier-headers-kept: forall i int :: 0 <= i && i < old(len(s.phs[ph.Header.Height][ph.Round][bytes(ph.Header.Hash)])) ==>
+//@       s.phs[ph.Header.Height][ph.Round][bytes(ph.Header.Hash)][i] == old(s.phs[ph.Header.Height][ph.Round][bytes(ph.Header.Hash)][i])
+//@   modifies heap
+//@   loop 1 invariant no-match-so-far: forall j int :: 0 <= j && j <= rangeindex ==> !sameKey(ph.ProposerPubKey, havePHs[j].ProposerPubKey)
